@@ -8,7 +8,7 @@ From Coq Require Import ZArith List Bool Sorted Permutation.
 From Verif Require Import Reloc.RelocModel Sections.SectionModel Sections.ChunkModel Sections.ChunkProofs Sections.JitReloc
   Sections.JitRelocProofs Sections.SectionProofs Sections.SectionTable Sections.CopyProofs
   Sections.ShrinkProofs Sections.StableProofs Sections.CoverProofs Sections.SettleProofs Sections.SectionSummary Sections.SectionExamples
-  Sections.FlagsModel Sections.FlagsProofs Sections.WidthModel Sections.WidthProofs Sections.JitCopyModel Sections.JitCopyProofs Sections.BuiltProofs Sections.BuiltJit Sections.BuiltJitCalls Sections.MonoProofs Sections.IdealProofs Sections.ReachIdeal.
+  Sections.FlagsModel Sections.FlagsProofs Sections.WidthModel Sections.WidthProofs Sections.JitCopyModel Sections.JitCopyProofs Sections.BuiltProofs Sections.BuiltJit Sections.BuiltJitCalls Sections.MonoProofs Sections.IdealProofs Sections.ReachIdeal Sections.Round7Proofs.
 From VerifGen Require C10Consts.
 Import ListNotations.
 Local Open Scope Z_scope.
@@ -697,3 +697,46 @@ Proof.
   repeat (split; [vm_compute; reflexivity|]). split; [exact new_section_zero_align|]. repeat (split; [vm_compute; reflexivity|]). vm_compute; reflexivity.
 Qed.
 Print Assumptions C10_constants_match.
+
+(* ---- round 7 ---- *)
+(* frame condition for the image: section NAMES never influence what is copied — neither copy_flattened_data nor copy_section_data,
+   nor the whole pipeline flatten-then-copy (same error, same memory), for any renaming g of the name field *)
+Theorem C10_copy_independent_of_names : forall g h mem dst ps pt,
+  copy_flat (map (rename g) h) mem dst ps pt = copy_flat h mem dst ps pt.
+Proof. exact copy_independent_of_names. Qed.
+Print Assumptions C10_copy_independent_of_names.
+
+Theorem C10_copy_section_independent_of_names : forall g h mem dst id ps,
+  copy_section (map (rename g) h) mem dst id ps = copy_section h mem dst id ps.
+Proof. exact copy_section_independent_of_names. Qed.
+Print Assumptions C10_copy_section_independent_of_names.
+
+Theorem C10_image_independent_of_names : forall g h mem dst ps pt,
+  fst (flatten (map (rename g) h)) = fst (flatten h) /\
+  copy_flat (snd (flatten (map (rename g) h))) mem dst ps pt = copy_flat (snd (flatten h)) mem dst ps pt.
+Proof. exact image_independent_of_names. Qed.
+Print Assumptions C10_image_independent_of_names.
+
+Theorem C10_example_image_independent_of_names :
+  copy_flat (snd (flatten (map (rename (fun _ => [1; 2; 3])) ex_h3))) (repeat 205 110) 110 true true
+  = copy_flat (snd (flatten ex_h3)) (repeat 205 110) 110 true true /\
+  fst (copy_flat (snd (flatten ex_h3)) (repeat 205 110) 110 true true) = EOk.
+Proof. exact image_independent_of_names_example. Qed.
+Print Assumptions C10_example_image_independent_of_names.
+
+(* JitRuntime::_add's OWN copy loop on the relocated holder of a built emitter state (call / embed_label / embed_label_delta / jz
+   sites, table on demand) installs, cell by cell, what copy_flattened_data(kPadSectionBuffer) installs: no premise besides `builtc` *)
+Theorem C10_builtc_jit_loop : forall st calls base h1 h2 red mem m1, builtc st ->
+  flatten (jh st) = (EOk, h1) -> relocate_holder h1 (jtab st) calls base = inl (h2, red) ->
+  code_size h1 <= Z.of_nat (length mem) ->
+  copy_flat h2 mem (Z.of_nat (length mem)) true false = (EOk, m1) ->
+  length (jit_copy h2 mem) = length m1 /\ forall c, 0 <= c -> cell (jit_copy h2 mem) c = cell m1 c.
+Proof. exact builtc_jit_loop. Qed.
+Print Assumptions C10_builtc_jit_loop.
+
+Theorem C10_example_builtc_jit_loop : exists h1 h2 m1,
+  builtc exc /\ flatten (jh exc) = (EOk, h1) /\
+  relocate_holder h1 (jtab exc) [SCall 0 1311768467463790320; SCall 6 4198400] 4194304 = inl (h2, 8) /\
+  copy_flat h2 (repeat 205 32) 32 true false = (EOk, m1) /\ jit_copy h2 (repeat 205 32) = m1.
+Proof. exact builtc_jit_loop_example. Qed.
+Print Assumptions C10_example_builtc_jit_loop.
